@@ -43,11 +43,26 @@ def check(path, cwd, bi):
         return True
     if BASES[bi][0] == "windows" and vs == "/" and real == base:
         # a drive / UNC segment re-rooted the join: the guard falls back to the virtual root
-        first = ref.lstrip("/").split("/")[0]
+        segs = ref.lstrip("/").split("/")
+        first = segs[0]
         if ":" in first or first.startswith("\\"):
+            return True
+        # a name holding the storage flavour's own separator with '..' behind it ("..\\x"): the join splits it again, the
+        # guard refuses the path as a whole
+        if any(".." in sg.split("\\") for sg in segs):
             return True
     hb.KEY = "not-the-normalised-location"
     return False
+
+
+BS_ALPH = [".", "\\", "a"]
+
+
+def check_backslash(n, i0, i1, i2, i3, cwd_i, bi):
+    """every string of 1..4 characters over {'.', backslash, 'a'} as ONE posix segment below a base path of flavour bi"""
+    n = hb.conc(n, 1, 4)
+    idx = [hb.conc(i0, 0, 2), hb.conc(i1, 0, 2), hb.conc(i2, 0, 2), hb.conc(i3, 0, 2)][:n]
+    return check("".join(BS_ALPH[i] for i in idx), CWDS[hb.conc(cwd_i, 0, 1)], bi)
 
 
 def join(lead_i, n, s0, s1, s2, s3):
